@@ -48,8 +48,9 @@ PROPERTIES = {
     },
     "C08": {
         "contracts": [transform.Reduce, transform.ReduceTuple, transform.ReduceNativeOnly],
-        "level": "proof",
+        "level": "other",
         "min_obligations": 400,
+        "explanation": "proved (relative to NumPy's own reductions, uninterpreted): which function is applied to which values along which axis, the remaining axes, metadata, scalar results, tuple axes as one flatten + reduction; bounded stand-in: median (both skipna settings) and ptp / all / any with skipna=True, whose implementation branches on the data and goes through numpy.ma.",
     },
     "C09": {
         "contracts": [transform.Cumulative, transform.ArgExtremum, transform.Diff, transform.DiffNative],
